@@ -194,6 +194,9 @@ func propC15(c *Ctx, r *Report) {
 	r.floor("spirv.Block.walkers", 3)
 	r.Clauses = append(r.Clauses, "two-sided guards (E70): a GLSL function that writes a read-zero guard around texelFetch / imageLoad and compares a coordinate, index, level or sample with the extent from above also compares it from below or converts it to unsigned",
 		"textures as arguments (E65): the GLSL resolver of an expression's image type also answers for a texture passed as a function argument (otherwise the Restrict policy references a clamped level it never declares)")
+	r.Clauses = append(r.Clauses, "clamped once, used clamped (E83): where the SPIR-V emitter clamps a variable's value with UMin, the variable is re-pointed to the clamped result in the same statement list or never read again")
+	c.runRawAfterClamp(r, "clamp.rawafter", "spirv/internal/codegen")
+	r.floor("clamp.rawafter", 2)
 	c.runLowerSide(r, "bounds.lowerside", "glsl/internal/codegen")
 	r.floor("bounds.lowerside", 1)
 	c.runImageTypeViaGlobal(r, "imagetype.viaglobal", inPkgs("glsl"))
